@@ -344,6 +344,8 @@ CONSTANTS Alphabet,      \* representative bytes for the exhaustive short string
           MaxSegs,       \* up to this many (byte, count) segments
           Pool,          \* sequence of parts for the part-list family
           MaxParts,      \* lists of 1..MaxParts parts
+          Pool2,         \* a second (larger) pool, for shorter lists
+          MaxParts2,
           MetaAlphabet,  \* bytes of the metadata family
           MaxMeta,       \* metadata strings up to this length (appended to tenant "a")
           MetaRuns       \* value run lengths around the 64-byte metadata limit
@@ -369,6 +371,7 @@ Seeds ==
     {[f |-> "byte",    x |-> <<k>>]   : k \in 0..15} \cup
     {[f |-> "runs",    x |-> s]       : s \in Seg} \cup
     {[f |-> "parts",   x |-> <<k>>]   : k \in DOMAIN Pool} \cup
+    {[f |-> "parts2",  x |-> <<k>>]   : k \in DOMAIN Pool2} \cup
     {[f |-> "meta",    x |-> <<b>>]   : b \in MetaAlphabet} \cup
     {[f |-> "metalen", x |-> <<n>>]   : n \in MetaRuns}
 
@@ -398,9 +401,12 @@ GenRuns == /\ seed.f = "runs"
            /\ \E n \in 0..(MaxSegs-1) : \E t \in [1..n -> Seg] :
                    Case("runs", Org(Expand(<<seed.x>> \o t)))
 
-GenParts == /\ seed.f = "parts"
-            /\ \E n \in 0..(MaxParts-1) : \E f \in [1..n -> DOMAIN Pool] :
-                   Case("parts", Org(Join(<<Pool[seed.x[1]]>> \o [i \in 1..n |-> Pool[f[i]]], PIPE)))
+PartLists(f, P, max) ==
+    /\ seed.f = f
+    /\ \E n \in 0..(max-1) : \E g \in [1..n -> DOMAIN P] :
+           Case(f, Org(Join(<<P[seed.x[1]]>> \o [i \in 1..n |-> P[g[i]]], PIPE)))
+
+GenParts == PartLists("parts", Pool, MaxParts) \/ PartLists("parts2", Pool2, MaxParts2)
 
 GenMeta == /\ seed.f = "meta"
            /\ \E n \in 0..(MaxMeta-1) : \E t \in [1..n -> MetaAlphabet] :
@@ -425,6 +431,7 @@ Spec == Init /\ [][Next]_vars
 (* valid tenant with malformed metadata.                                                     *)
 PoolQuick    == << <<97>>, <<48>>, <<97, COLON, 97, EQ, 48>>, <<97, COLON, 48, EQ, 48>>, <<SLASH>> >>
 PoolThorough == PoolQuick \o << <<>>, <<DOT, DOT>>, <<48, COLON, 97, EQ, 48>>, <<97, COLON, SLASH>> >>
+PoolNone     == <<>>
 
 -----------------------------------------------------------------------------
 (* Invariants: the theorems on every enumerated organisation id. *)
